@@ -872,12 +872,14 @@ func (t *Tokenizer) readIdentifier() (models.Token, error) {
 				compoundKeyword := ident + " " + nextIdent
 				upperCompound := strings.ToUpper(compoundKeyword)
 
-				// Check if it's a valid compound keyword
+				// Check if it's a valid compound keyword. Its value is the canonical
+				// (upper-case) spelling: later stages recognise compound keywords by
+				// value, and keyword recognition must not depend on letter case.
 				if compoundType, ok := compoundKeywordTypes[upperCompound]; ok {
 					return models.Token{
 						Type:  compoundType,
 						Word:  word,
-						Value: compoundKeyword,
+						Value: upperCompound,
 					}, nil
 				}
 			}
